@@ -10,7 +10,7 @@ EXPLANATION = ("In gix-transport's ssh and file transports every value passed to
                "those fields. The (user, host) -> argument decision table of prepare_invocation and the host table of ssh::connect are extracted and must admit only "
                "Usable values (plus the documented `user@` + dangerous host case). In the spawn handshake the push of the path is cut off from entry unless the "
                "`first byte is not '-'` edge was taken, and for ssh the pushed value is gix_quote::single(path). looks_like_command_line_option tests for b'-' and "
-               "single() escapes exactly ' and !. What a real shell does with the quoted word is not decided.")
+               "single() escapes exactly ' and !. On the (usable user, dangerous host) arm the argument handed to ssh is built by format!(user@host) on every path. What a real shell does with the quoted word is not decided.")
 SINK = r"(gix_command::prepare::<impl gix_command::Prepare>::(arg|args)$|std::process::Command::(arg|args)$|alloc::vec::Vec::<T, A>::push$)"
 RAW = r"^gix_url::Url::(user|host|password)$"
 SAFE = ["Absent", "Usable", "Dangerous"]
